@@ -1,9 +1,43 @@
+import Autog.Model.WMedian
 import Autog.Lemmas.TreePreorderPlanar
-/-! # C13
-    Trees are planar. -/
+/-! # C13 — rooted trees are drawn without edge crossings
+
+    PARTIAL. Three links:
+    (a) combinatorial core, for all trees (lemma library, `C13_preorder_no_crossing`): the edges between depth d and d+1 of a rooted
+        tree, taken parent by parent, list the children in pre-order level order; so for ANY positions that increase along the
+        level lists no two of them cross;
+    (b) on the exact model of the ordering phase (key `T:phase3-wmedian`): a run whose DFS-initialised order has no crossing returns
+        at once with that order and count 0 (`C13_run_returns_initial_order`), and the phase logs 0 as soon as one of its two runs
+        reports 0 (`C13_logs_zero`);
+    (c) the counter is exact (C12) and the logged number equals the model's count on the returned order on every traced run
+        (`T:crossings`), the positioners keep the order (C12_*_keeps_order).
+    NOT proved: that the DFS initialisation of the model, run on the layered image of a tree, numbers each layer exactly as the
+    pre-order level lists of (a) — decided per run: every generated tree (all edge orders, both directions, both layerers, all
+    size-aware positioners) must come back with 0 logged and 0 recounted crossings. -/
 
 namespace Autog
 
 theorem C13_preorder_no_crossing : type_of% @TreePreorderPlanar.no_crossing := @TreePreorderPlanar.no_crossing
+
+/-- a run whose initial (DFS) order is crossing-free returns immediately: count 0, the initial positions, the initial state -/
+theorem C13_run_returns_initial_order (maxiter : Nat) (down : Bool) (g g1 : G)
+    (hi : wmInit down g = .ok g1) (h0 : crossingsAll g1 = .ok 0) :
+    wmedianRun maxiter down g = .ok (0, positionsOf g1, g1) := by
+  unfold wmedianRun
+  simp [hi, h0, bind, Except.bind, pure, Except.pure]
+
+/-- the ordering phase logs 0 as soon as one of its two runs reports 0 crossings -/
+theorem C13_logs_zero (maxiter : Nat) (g g1 g2 : G) (xt xb : Nat) (pt pb : Array Int)
+    (hflat : (g.elist.any g.isFlat) = false)
+    (rt : wmedianRun maxiter true g = .ok (xt, pt, g1)) (rb : wmedianRun maxiter false g1 = .ok (xb, pb, g2))
+    (h0 : xt = 0 ∨ xb = 0) : ∃ gf, orderWMedian maxiter g = .ok (gf, 0) := by
+  unfold orderWMedian
+  simp only [hflat, Bool.false_eq_true, if_false, bind, Except.bind, rt, rb, pure, Except.pure]
+  rcases h0 with rfl | rfl
+  · by_cases h : 0 < xb
+    · simp [h]
+    · have : xb = 0 := by omega
+      subst this; simp
+  · simp
 
 end Autog
